@@ -458,6 +458,12 @@ def run(ctx):
             if not ok1:
                 detail = f"label key sanitised at emission: {len(shown) == 2 and half(shown[0], 'formatting::sanitize_label_key', '0', 'Label::key')}, label value escaped at emission: {len(shown) == 2 and half(shown[1], 'formatting::sanitize_label_value', '1', 'Label::value')}"
             ok = ok and ok1
+        # ... and the name it returns is the sanitiser's output on every path (a `nothing to replace` shortcut that tests
+        # only the general character class lets a leading digit through)
+        r0 = strip_sym(Sym(ktp).local(0))
+        nm0 = strip_sym(r0[3][0]) if r0[0] == "agg" and r0[3] else None
+        okn = nm0 is not None and sym_is_call(nm0, "formatting::sanitize_metric_name") and sym_is_call(strip_sym(nm0[2][0]), "Key::name")
+        chk.ob("C08.g", f"{ktp.path} [name through the sanitiser]", okn, "name = sanitize_metric_name(key.name()) on every path" if okn else f"the series name is {sym_str(nm0)[:70] if nm0 is not None else '?'}: on some path the key's name reaches the output without passing through sanitize_metric_name (first-character rule included)", ktp.loc(), nontrivial=False)
         chk.ob("C08.g", f"{ktp.path} [every emitted label pair is sanitised]", ok, "each (k, v) of the merged map is written as sanitize_label_key(k)=\"sanitize_label_value(v)\"" if ok else f"label pairs are not sanitised where they are written ({detail}): a value that enters the merged map by another route (e.g. a global label) is emitted verbatim and can end the value early or forge a line", ktp.loc())
 
     # ---------------- C08.f
